@@ -298,13 +298,59 @@ static void vf_native(void)
                 canaries=[canary])
 
 
+def unit_where_element(nmax=6):
+    """VH::whereElement (Route C, loop closed by invariant): first rank holding the target, -1 iff absent."""
+    pre = BOOL + "#define NMAX %d\n" % nmax
+    contract = "\n".join([
+        "__CPROVER_requires(0 <= tab_size && tab_size <= NMAX && tab == W_itab)",
+        "__CPROVER_assigns()",
+        "__CPROVER_ensures(-1 <= __CPROVER_return_value && __CPROVER_return_value < tab_size)",
+        "__CPROVER_ensures(__CPROVER_return_value < 0 || W_itab[__CPROVER_return_value] == target)",
+        # no earlier (resp. no) element holds the target
+        "__CPROVER_ensures(%s)" % AND("(%d >= tab_size || (__CPROVER_return_value >= 0 && %d >= __CPROVER_return_value) || W_itab[%d] != target)" % (k, k, k) for k in range(nmax)),
+    ])
+    loop = "\n".join([
+        "__CPROVER_assigns(i)",
+        "__CPROVER_loop_invariant(0 <= i && i <= ntab && ntab == tab_size)",
+        "__CPROVER_loop_invariant(%s)" % AND("(%d >= i || W_itab[%d] != target)" % (k, k) for k in range(nmax)),
+        "__CPROVER_decreases(ntab - i)",
+    ])
+    f = Fn("VectorHelper::whereElement", "src/Basic/VectorHelper.cpp", r"^int VectorHelper::whereElement\(const VectorInt& tab, int target\)\s*$",
+           csig="int VH_whereElement(const int* tab, int tab_size, int target)", contract=contract, loops={1: loop}, nloops=1,
+           rewrites=[(r"\(int\) tab\.size\(\)", "tab_size", 1)])
+    h = """
+void vf_harness(void)
+{
+  vf_havoc_inputs();
+  VH_whereElement(W_itab, W_n, W_target);
+  VF_REACH();
+}
+"""
+    native = r"""
+static void vf_native(void)
+{
+  if (!(0 <= W_n && W_n <= NMAX)) exit(77);
+  int r = VH_whereElement(W_itab, W_n, W_target);
+  int first = -1;
+  for (int k = W_n - 1; k >= 0; k--) if (W_itab[k] == W_target) first = k;
+  __CPROVER_assert(r == first, "first rank holding the target, -1 when absent");
+}
+"""
+    return Unit("C11.VH.whereElement", [f], prelude=pre, harness=h, native=native, pre_inputs=BOOL, defines={"NMAX": nmax},
+                inputs=[("int", "W_itab", "NMAX"), ("int", "W_n"), ("int", "W_target")], enforce="VH_whereElement", backends=("minisat", "cadical"), timeout=600,
+                fallback_unwind=nmax + 2,
+                claim="VH::whereElement returns the first rank whose element equals the target and -1 exactly when no element does; nothing written; loop closed by invariant (length <= %d)" % nmax,
+                assumptions=["at most %d elements (quantifier range)" % nmax, "const VectorInt& -> (const int*, int)"],
+                canaries=[{"fn": f.name, "rx": r"for \(int i = 0, ntab", "rp": "for (int i = 1, ntab", "expect": r"VH_whereElement\.(postcondition|loop_invariant_base)"}])
+
+
 def units(tier):
-    return [unit_dense_dims(), unit_sparse_dims(), unit_normmatrix(), unit_where("Minimum"), unit_where("Maximum")]
+    return [unit_dense_dims(), unit_sparse_dims(), unit_normmatrix(), unit_where("Minimum"), unit_where("Maximum"), unit_where_element()]
 
 
 META = {
     "level": "other",
-    "explanation": "(the two dimension units and the two VH::whereMinimum/whereMaximum units are unbounded proofs, normMatrix.terms is a bounded stand-in, hence level 'other') Shape/index contracts of the Eigen-backed dense kernels and sparse product kernels for every shape; extremum-rank contracts of VH::whereMinimum / whereMaximum (loop invariant); numerical values, sparse storage, decompositions and thread-count independence are not decidable here.",
+    "explanation": "(the two dimension units and the three VH::whereMinimum/whereMaximum/whereElement units are unbounded proofs, normMatrix.terms is a bounded stand-in, hence level 'other') Shape/index contracts of the Eigen-backed dense kernels and sparse product kernels for every shape; extremum-rank contracts of VH::whereMinimum / whereMaximum (loop invariant); numerical values, sparse storage, decompositions and thread-count independence are not decidable here.",
     "trusted_base": ["CBMC 6.11 C++ front end", "Eigen (numerics)", "stub classes"],
     "assumptions": [],
     "not_covered": ["values computed by Eigen/csparse", "csparse storage of MatrixSparse and its non-product methods", "Cholesky / eigen-decomposition", "thread-count independence (no thread model)",
@@ -312,7 +358,7 @@ META = {
 }
 MANIFEST = {
     "category": "other",
-    "text": "Dimension-typing contracts on the Eigen-backed kernels of AMatrixDense (18 methods) and on the Eigen-storage product kernels of MatrixSparse (9 methods): loop-free, hence for every matrix shape and both transposition flags (proved); bounded (3x3) term-coverage unit on the generic congruence product normMatrix; VH::whereMinimum / whereMaximum return the rank of the extremum of the defined elements (loop invariant, proved); other values are not claimed.",
+    "text": "Dimension-typing contracts on the Eigen-backed kernels of AMatrixDense (18 methods) and on the Eigen-storage product kernels of MatrixSparse (9 methods): loop-free, hence for every matrix shape and both transposition flags (proved); bounded (3x3) term-coverage unit on the generic congruence product normMatrix; VH::whereMinimum / whereMaximum return the rank of the extremum of the defined elements and VH::whereElement the first rank of the target (loop invariants, proved); other values are not claimed.",
     "note": "Trusted: Eigen preconditions as documented; numerical results N/A.",
     "design_ref": "DESIGN.md 3 C11",
 }
